@@ -61,6 +61,8 @@ func publisherFactory.New
 func publisherFactory.New.$[a,b]
   props C12 C19
   requires a != nil && !isnil(a.Cache) && !isnil(a.SnapshotStore) && !isnil(p.log) && b != nil
-  modifies everything, putBatches
+  modifies everything, putBatches, lastPutBatch
   ensures C19/at-most-one-put: putBatches == old(putBatches) || putBatches == old(putBatches) + 1
+  // what is forwarded is the batch the task built from the cache misses, never the batch as it arrived
+  ensures C19/forwards-the-filtered-batch: putBatches == old(putBatches) + 1 ==> fresh(lastPutBatch)
 @*/
